@@ -608,14 +608,14 @@ pub fn histories(max_len: usize) -> Vec<Vec<usize>>
 pub fn drive(d: &mut Driver)
 {
 	let quick = d.quick();
-	let max_units = if quick { 5 } else { 7 };
-	let max_modules = if quick { 3 } else { 4 };
+	let max_units = if quick { 6 } else { 7 };
+	let max_modules = 4;
 	let progs = programs(max_units);
 	d.bound("items", json!(ITEMS.iter().map(|i| i.name).collect::<Vec<_>>()));
 	d.bound("programs (sets of roots whose closure with main has at most this many units)", json!({"max_units": max_units, "programs": progs.len()}));
-	d.bound("modules per partition", json!({"from": 2, "to": max_modules, "note": "programs of exactly 7 units (thorough only): at most 3 modules"}));
+	d.bound("modules per partition", json!({"from": 2, "to": max_modules, "note": "quick: programs of exactly 6 units are split into at most 3 modules"}));
 	d.bound("file orders", json!("all permutations of the files"));
-	d.bound("splice orders", json!("all permutations of up to 6 import pairs (720); above that all permutations up to commutation of independent splices (at most 20000 per file order, counted when hit); merged where the expanded modules are identical; the commutation argument is cross-checked on every fully enumerated space"));
+	d.bound("splice orders", json!("if the expander iterates a hash collection (reported by the hook): all permutations of up to 6 import pairs (720); above that all permutations up to commutation of independent splices (at most 20000 per file order, counted when hit); merged where the expanded modules are identical; the commutation argument is cross-checked on every fully enumerated space; if the expander's order is deterministic (as on the repaired tree): exactly that order"));
 	d.bound("path forms", json!(FORMS));
 
 	// single-file programs against the model
@@ -627,7 +627,7 @@ pub fn drive(d: &mut Driver)
 	for (pi, p) in progs.iter().enumerate()
 	{
 		// the largest programs of the thorough tier are split into at most three modules
-		let modules_here = if !quick && p.units.len() == max_units { 3 } else { max_modules };
+		let modules_here = if quick && p.units.len() == max_units { 3 } else { max_modules };
 		let parts = partitions(p.units.len(), 2, modules_here);
 		let forms: Vec<usize> = if p.units.len() <= (if quick { 3 } else { 4 }) { vec![0, 1, 2, 3] } else { vec![0] };
 		for form in forms
@@ -647,7 +647,7 @@ pub fn drive(d: &mut Driver)
 
 	// negatives derived from the splits
 	let mut jobs = Vec::new();
-	let neg_units = if quick { 4 } else { 5 };
+	let neg_units = if quick { 5 } else { 6 };
 	for (pi, p) in progs.iter().enumerate()
 	{
 		if p.units.len() > neg_units
@@ -686,7 +686,7 @@ pub fn work(spec: &Value, w: &mut WorkerCtx)
 	if let Some(case) = spec.get("replay")
 	{
 		let files: Vec<(String, String)> = case["files"].as_array().unwrap().iter().map(|f| (f[0].as_str().unwrap().to_string(), f[1].as_str().unwrap().to_string())).collect();
-		let perm = case["perm"].as_u64().unwrap() as usize;
+		let perm = case["perm"].as_u64().map(|p| p as usize);
 		if case["kind"] == "history"
 		{
 			judge_history(&files, case["what"].as_str().unwrap_or(""), w);
@@ -710,7 +710,7 @@ pub fn work(spec: &Value, w: &mut WorkerCtx)
 				let p = &progs[pi];
 				let files = vec![("m0.pn".to_string(), single_file(p))];
 				w.result.transitions += 1;
-				judge(&files, 0, &Expect::Accept(expected_out(&p.roots)), "single file", &format!("roots {:?}", root_names(p)), w);
+				judge(&files, None, &Expect::Accept(expected_out(&p.roots)), "single file", &format!("roots {:?}", root_names(p)), w);
 			}
 		}
 		"split" =>
@@ -889,6 +889,22 @@ fn explore(files: &[(String, String)], expect: &Expect, class: &str, what: &str,
 		let ordered: Vec<(String, String)> = order.iter().map(|i| files[*i].clone()).collect();
 		let pairs = import_pairs(&ordered);
 		let k = pairs.len();
+		// Which schedules can really happen? If the expander iterates a hash collection, every
+		// permutation of the pairs; otherwise only the order it produces itself.
+		let hashed = {
+			penne::verif::set_import_permutation(None);
+			let mut modules: Vec<(std::path::PathBuf, Vec<penne::alpha::common::Declaration>)> = vec![("probe.pn".into(), Vec::new())];
+			expander::expand(&mut modules);
+			penne::verif::last_import_order_is_hashed()
+		};
+		if !hashed
+		{
+			w.result.transitions += 1;
+			w.result.max_counter("max_import_pairs", k as u64);
+			w.result.count("file orders explored under the expander's own (deterministic) splice order", 1);
+			judge(&ordered, None, expect, class, what, w);
+			continue;
+		}
 		let (perms, complete, reduced): (Vec<usize>, bool, bool) = if k <= FULL_PAIRS
 		{
 			((0..(1..=k).product::<usize>()).collect(), true, false)
@@ -960,7 +976,7 @@ fn explore(files: &[(String, String)], expect: &Expect, class: &str, what: &str,
 		}
 		for perm in representatives
 		{
-			judge(&ordered, perm, expect, class, what, w);
+			judge(&ordered, Some(perm), expect, class, what, w);
 		}
 	}
 }
@@ -991,7 +1007,7 @@ fn run_cached(ir: &str) -> (Option<i32>, Option<i32>, String, String)
 	x
 }
 
-fn judge(files: &[(String, String)], perm: usize, expect: &Expect, class: &str, what: &str, w: &mut WorkerCtx)
+fn judge(files: &[(String, String)], perm: Option<usize>, expect: &Expect, class: &str, what: &str, w: &mut WorkerCtx)
 {
 	w.result.states += 1;
 	let desc = || json!({"files": files, "perm": perm, "class": class, "what": what, "expect_out": expect_json(expect), "sig_hint": class});
@@ -999,7 +1015,7 @@ fn judge(files: &[(String, String)], perm: usize, expect: &Expect, class: &str, 
 	let size: u64 = files.iter().map(|f| f.1.len() as u64).sum::<u64>() + files.len() as u64 * 1000;
 	let fs = files.to_vec();
 	let outcome = w.run_case(&d, || {
-		penne::verif::set_import_permutation(Some(perm));
+		penne::verif::set_import_permutation(perm);
 		let v = alpha::alpha_pipeline(&fs, alpha::FULL);
 		penne::verif::set_import_permutation(None);
 		let exec = match &v
@@ -1025,7 +1041,7 @@ fn judge(files: &[(String, String)], perm: usize, expect: &Expect, class: &str, 
 					{
 						w.result.outcome(&format!("{class}:accepted:WRONG OUTPUT"));
 						w.result.violation(&format!("behaves-differently-from-single-file:{class}"), size, &desc, || {
-							format!("{what} (splice order {perm}): linked program gives status {status:?} signal {signal:?}\nstdout {stdout:?}\nexpected {want:?}\nstderr {stderr}\n{}", show())
+							format!("{what} (splice order {perm:?}): linked program gives status {status:?} signal {signal:?}\nstdout {stdout:?}\nexpected {want:?}\nstderr {stderr}\n{}", show())
 						});
 					}
 					else
@@ -1040,13 +1056,13 @@ fn judge(files: &[(String, String)], perm: usize, expect: &Expect, class: &str, 
 				(Verdict::Ok { .. }, Expect::Reject) =>
 				{
 					w.result.outcome(&format!("{class}:ACCEPTED"));
-					w.result.violation(&format!("invisible-item-accepted:{class}"), size, &desc, || format!("{what} (splice order {perm}): must be rejected, but is accepted\n{}", show()));
+					w.result.violation(&format!("invisible-item-accepted:{class}"), size, &desc, || format!("{what} (splice order {perm:?}): must be rejected, but is accepted\n{}", show()));
 				}
 				(Verdict::Rejected { diags, .. }, Expect::Accept(_)) =>
 				{
 					let codes: Vec<u16> = diags.iter().map(|d| d.code).collect();
 					w.result.outcome(&format!("{class}:REJECTED"));
-					w.result.violation(&format!("rejected:E{}:{class}", codes.first().copied().unwrap_or(0)), size, &desc, || format!("{what} (splice order {perm}): must be accepted, rejected with {codes:?}\n{}", show()));
+					w.result.violation(&format!("rejected:E{}:{class}", codes.first().copied().unwrap_or(0)), size, &desc, || format!("{what} (splice order {perm:?}): must be accepted, rejected with {codes:?}\n{}", show()));
 				}
 				(Verdict::Rejected { diags, .. }, Expect::Reject) =>
 				{
@@ -1062,14 +1078,14 @@ fn judge(files: &[(String, String)], perm: usize, expect: &Expect, class: &str, 
 				(Verdict::InternalError(e), _) =>
 				{
 					w.result.outcome(&format!("{class}:INTERNAL ERROR"));
-					w.result.violation(&format!("internal-error:{class}"), size, &desc, || format!("{what} (splice order {perm}): {e}\n{}", show()));
+					w.result.violation(&format!("internal-error:{class}"), size, &desc, || format!("{what} (splice order {perm:?}): {e}\n{}", show()));
 				}
 			}
 		}
 		CaseOutcome::Panicked { site, message } =>
 		{
 			let sig = format!("panic@{}", crate::util::site_signature(&site, &message));
-			w.result.violation(&sig, size, &desc, || format!("{what} (splice order {perm}): panic at {site}: {message}\n{}", show()));
+			w.result.violation(&sig, size, &desc, || format!("{what} (splice order {perm:?}): panic at {site}: {message}\n{}", show()));
 		}
 		CaseOutcome::Crashed { .. } =>
 		{}
